@@ -350,7 +350,58 @@ Fixpoint dec_fields (m : smap) (mult : nat) (dup : bool) (n : nat) (bs : list N)
     end
   end.
 
+(* read_samples reads the series of the key GT with read_genotype_values, which has no
+   InvalidLength check: a zero-length Int8 descriptor is accepted there (one missing value).
+   [dec_fields_k] is [dec_fields] with that exemption; it accepts everything [dec_fields] accepts,
+   with the same result (BlockProofs.dec_fields_k_of_dec_fields). *)
+Definition key_GT : name := [71; 84]%N.
+
+Fixpoint dec_fields_k (m : smap) (mult : nat) (dup : bool) (n : nat) (bs : list N)
+  : option (list (name * list N) * list N) :=
+  match n with
+  | O => Some ([], bs)
+  | S n' =>
+    match dec_index bs with
+    | Some (i, r) =>
+      match get_index m (znat (length (entries m)) i) with
+      | Some k =>
+        match split_typed (negb dup && negb (name_eqb k key_GT)) mult r with
+        | Some (vb, r') =>
+          match dec_fields_k m mult dup n' r' with
+          | Some (l, r'') => if dup && has_key k l then None else Some ((k, vb) :: l, r'')
+          | None => None
+          end
+        | None => None
+        end
+      | None => None
+      end
+    | None => None
+    end
+  end.
+
 (* read_record_buf as a whole: the split, the site head, the INFO block, the FORMAT block *)
+Definition dec_record_k (strings contigs : smap) (hdr_samples : Z) (bs : list N)
+  : option (head * list (name * list N) * list (name * list N) * list N) :=
+  match dec_frame bs with
+  | Some (sb, ib, rest) =>
+    match dec_head strings contigs sb with
+    | Some (h, info_bytes) =>
+      if hdr_samples <? h_n_sample h then None else
+      match dec_fields_k strings 1 true (Z.to_nat (h_n_info h)) info_bytes with
+      | Some (infos, _) =>
+        match dec_fields_k strings (Z.to_nat (h_n_sample h)) false (Z.to_nat (h_n_fmt h)) ib with
+        | Some (fmts, _) => Some (h, infos, fmts, rest)
+        | None => None
+        end
+      | None => None
+      end
+    | None => None
+    end
+  | None => None
+  end.
+
+(* the same without the GT exemption (kept for the theorems stated about it: c10_record_roundtrip,
+   C15's dec_record_bounded) *)
 Definition dec_record (strings contigs : smap) (hdr_samples : Z) (bs : list N)
   : option (head * list (name * list N) * list (name * list N) * list N) :=
   match dec_frame bs with
